@@ -314,7 +314,7 @@ def enumerate_paths(body, facts=None, start=0, max_paths=50000, stop_calls=None,
                     o = body._origin_of_def(last0, last0.term, 0)
                 else:
                     o = body._origin_of_def(last0, last0.stmt, 0)
-                p.outcome = describe(o)
+                p.outcome = describe(refine(body, o, env))
             else:
                 p.outcome = 'unit'
             out.append(p)
